@@ -1,6 +1,7 @@
-(* Tie for C08.  A case is a history over a generated world (Tie/RegCommon.hist_case): mutations
-   separated by groups of queries in which every entry point is called for the same keys, in
-   random order, twice (cold cache, then warm through whatever entry points came first).
+(* Tie for C08.  A case is a history over a generated world: mutations separated by groups of
+   queries in which every entry point is called for the same keys, in random order, twice (cold
+   cache, then warm through whatever entry points came first); between a single warm call and such
+   a group the declaration of a class the key depends on may be changed in place (a new phase).
 
    check_model : the shared registry model (Model/RegSys.run, whose entry points are the ones the
                  theorems of Properties/C08.v are about) answers exactly like the implementation.
